@@ -14,6 +14,7 @@ import (
 
 	"verif/sim/enga"
 	"verif/sim/kernel"
+	"verif/sim/simmongo"
 )
 
 // sendAs issues one RPC as the named pseudo client and drives it to its answer (canonical order,
@@ -35,6 +36,36 @@ func (r *run) sendAs(name, method string, req proto.Message) callResult {
 		}
 	}
 	r.pump(f, nil, nil, false, "")
+	synctest.Wait()
+	select {
+	case res := <-done:
+		return res
+	default:
+		return callResult{err: fmt.Errorf("no answer")}
+	}
+}
+
+// sendAsFaulty is sendAs with a fault plan for the database commands of the call.
+func (r *run) sendAsFaulty(name, method string, req proto.Message, mf []MongoFault) callResult {
+	if len(mf) == 0 {
+		return r.sendAs(name, method, req)
+	}
+	w := r.w
+	ep := &endpoint{t: w.tr, name: name}
+	done := make(chan callResult, 1)
+	go func() {
+		m, err := ep.t.issue(ep.name, method, req)
+		done <- callResult{msg: m, err: err}
+	}()
+	synctest.Wait()
+	f := &focus{calls: map[*call]bool{}, owners: map[string]bool{}}
+	for _, c := range w.tr.byState("queued") {
+		if c.client == name {
+			f.calls[c] = true
+			f.owners[callOwner(c)] = true
+		}
+	}
+	r.pump(f, nil, mf, false, "")
 	synctest.Wait()
 	select {
 	case res := <-done:
@@ -252,7 +283,8 @@ func (r *run) rogue(e Ev) {
 			num := r.collNum(base.Collection)
 			var cands []string
 			for _, duid := range sortedKeys(dts) {
-				if di := dts[duid]; di.doc.CollectionNum == num && di.doc.Key != "?orphan" && len(di.ops) > 0 {
+				// a datatype under another key of the same collection, or (several collections) of another collection
+				if di := dts[duid]; di.doc.Key != "?orphan" && len(di.ops) > 0 {
 					cands = append(cands, duid)
 				}
 			}
@@ -260,6 +292,9 @@ func (r *run) rogue(e Ev) {
 				return
 			}
 			x := dts[cands[g.Intn(len(cands))]]
+			if x.doc.CollectionNum != num {
+				r.probe("rogue-used-duid-foreign-collection")
+			}
 			cuid := g.UID()
 			reg := r.sendAs("rogue", "ProcessClient", &model.ClientMessage{Header: model.NewMessageHeader(model.RequestType_CLIENTS), Collection: base.Collection, Cuid: cuid, ClientAlias: "rogue", SyncType: model.SyncType_MANUALLY})
 			if reg.err != nil {
@@ -278,8 +313,8 @@ func (r *run) rogue(e Ev) {
 				p.Operations = []*model.Operation{op}
 				p.CheckPoint.Cseq = 0
 			}
-			usedKey, usedNum = x.doc.Key, num
-			usedBefore = r.partition(num, usedKey)
+			usedKey, usedNum = x.doc.Key, x.doc.CollectionNum
+			usedBefore = r.partition(usedNum, usedKey)
 		case "unregistered-cuid":
 			base.Cuid = g.UID()
 		case "admin-cuid":
@@ -478,8 +513,15 @@ func (r *run) resetCollection(e Ev) {
 		}
 	}
 	r.probe("reset")
-	res := r.sendAs("admin", "ResetCollection", &model.CollectionMessage{Collection: name})
+	faultsBefore := r.res.Faults["mongo-"+simmongo.FaultErrBefore] + r.res.Faults["mongo-"+simmongo.FaultErrAfter]
+	res := r.sendAsFaulty("admin", "ResetCollection", &model.CollectionMessage{Collection: name}, e.MF)
 	r.logf("reset collection %s(%d) -> %v", name, num, res.err)
+	if res.err != nil && r.res.Faults["mongo-"+simmongo.FaultErrBefore]+r.res.Faults["mongo-"+simmongo.FaultErrAfter] > faultsBefore {
+		// the database failed during the reset: the caller was told, and tries again
+		r.probe("reset-failed-under-fault")
+		res = r.sendAs("admin", "ResetCollection", &model.CollectionMessage{Collection: name})
+		r.logf("reset collection %s(%d) again -> %v", name, num, res.err)
+	}
 	if res.err != nil {
 		r.fail("iso", "C17.reset-exact", "reset-failed", "ResetCollection(%s) failed: %v", name, res.err)
 		return
@@ -518,6 +560,58 @@ func (r *run) resetCollection(e Ev) {
 			a.gone = true
 		}
 	}
+}
+
+// ghostSync: a client whose registration was removed by ResetCollection goes on as if nothing had
+// happened. "Resetting a collection removes ... clients": it is a stranger now, its request is
+// refused and changes nothing.
+func (r *run) ghostSync(a *actor) {
+	w := r.w
+	a.mu.Lock()
+	busy := a.syncing > 0
+	a.mu.Unlock()
+	if busy || len(a.dts) == 0 {
+		return
+	}
+	// somebody may have registered the same id again meanwhile (rogue client-* mutations): then it is no stranger
+	for _, d := range r.docsOf(schema.CollectionNameClients) {
+		if id, _ := get(d, "_id"); id == a.cuid {
+			return
+		}
+	}
+	before := r.committedDigest()
+	ncalls := len(w.tr.calls)
+	a.connected = true
+	ok := r.startSync(a)
+	a.connected = false
+	if !ok {
+		return
+	}
+	synctest.Wait()
+	f := &focus{calls: map[*call]bool{}, owners: map[string]bool{}}
+	var mine []*call
+	for _, c := range w.tr.calls[ncalls:] {
+		if c.client == a.name {
+			f.calls[c] = true
+			f.owners[callOwner(c)] = true
+			mine = append(mine, c)
+		}
+	}
+	r.pump(f, nil, nil, false, "")
+	synctest.Wait()
+	r.probe("purged-client-sync")
+	for _, c := range mine {
+		if c.resp == nil {
+			continue
+		}
+		if !refused(*c.resp) {
+			r.fail("iso", "C17.reset-exact", "purged-client-accepted", "%s was registered in %s, the collection was reset (its registration removed), and its next push-pull was accepted as if it were still registered", a.name, a.collection)
+		}
+	}
+	if after := r.committedDigest(); after != before {
+		r.fail("iso", "C17.reset-exact", "purged-client-changed-store", "the push-pull of %s, whose registration was removed by ResetCollection(%s), changed stored data:\n%s", a.name, a.collection, diffText(before, after))
+	}
+	r.checkClientCrash()
 }
 
 // checkIsolation: collection numbers are distinct (C17.distinct-numbers).
